@@ -72,15 +72,14 @@ impl PixelDataReader for RleLosslessAdapter {
             let fragment = &src
                 .fragment(i)
                 .whatever_context("No pixel data found for frame")?;
-            let mut offsets = read_rle_header(fragment);
-            offsets.push(fragment.len() as u32);
+            let offsets = read_rle_header(fragment)?;
 
             for sample_number in 0..samples_per_pixel {
                 for byte_offset in (0..bytes_per_sample).rev() {
                     // ii is 1, 0, 3, 2, 5, 4 for the example above
                     // This is where the segment order correction occurs
                     let ii = sample_number * bytes_per_sample + byte_offset;
-                    let segment = &fragment[offsets[ii] as usize..offsets[ii + 1] as usize];
+                    let segment = rle_segment(fragment, &offsets, ii)?;
                     let buff = io::Cursor::new(segment);
                     let (_, decoder) = PackBitsReader::new(buff, segment.len())
                         .whatever_context("Failed to read RLE segments")?;
@@ -89,6 +88,9 @@ impl PixelDataReader for RleLosslessAdapter {
                         .take(rows as u64 * cols as u64)
                         .read_to_end(&mut decoded_segment)
                         .unwrap();
+                    if decoded_segment.len() < rows as usize * cols as usize {
+                        whatever!("RLE segment has fewer samples than the frame");
+                    }
 
                     // Interleave pixels as described in the example above.
                     // in 16-bit, this is:
@@ -182,15 +184,14 @@ impl PixelDataReader for RleLosslessAdapter {
         let fragment = &src
             .fragment(frame as usize)
             .whatever_context("No pixel data found for frame")?;
-        let mut offsets = read_rle_header(fragment);
-        offsets.push(fragment.len() as u32);
+        let offsets = read_rle_header(fragment)?;
 
         for sample_number in 0..samples_per_pixel {
             for byte_offset in (0..bytes_per_sample).rev() {
                 // ii is 1, 0, 3, 2, 5, 4 for the example above
                 // This is where the segment order correction occurs
                 let ii = sample_number * bytes_per_sample + byte_offset;
-                let segment = &fragment[offsets[ii] as usize..offsets[ii + 1] as usize];
+                let segment = rle_segment(fragment, &offsets, ii)?;
                 let buff = io::Cursor::new(segment);
                 let (_, decoder) = PackBitsReader::new(buff, segment.len())
                     .map_err(|e| Box::new(e) as Box<_>)
@@ -200,6 +201,9 @@ impl PixelDataReader for RleLosslessAdapter {
                     .take(rows as u64 * cols as u64)
                     .read_to_end(&mut decoded_segment)
                     .unwrap();
+                if decoded_segment.len() < rows as usize * cols as usize {
+                    whatever!("RLE segment has fewer samples than the frame");
+                }
 
                 // Interleave pixels as described in the example above.
                 let start = if samples_per_pixel == 3 {
@@ -223,12 +227,31 @@ impl PixelDataReader for RleLosslessAdapter {
 
 // TODO(#125) implement `encode`
 
-// Read the RLE header and return the offsets
-fn read_rle_header(fragment: &[u8]) -> Vec<u32> {
+// Read the RLE header and return the offsets,
+// followed by the end of the last segment
+fn read_rle_header(fragment: &[u8]) -> DecodeResult<Vec<u32>> {
+    // the header has 16 32-bit fields: number of segments + 15 offsets
+    if fragment.len() < 64 {
+        whatever!("RLE fragment is shorter than its header");
+    }
     let nr_segments = LittleEndian::read_u32(&fragment[0..4]);
+    if nr_segments > 15 {
+        whatever!("Invalid number of RLE segments");
+    }
     let mut offsets = vec![0; nr_segments as usize];
     LittleEndian::read_u32_into(&fragment[4..4 * (nr_segments + 1) as usize], &mut offsets);
-    offsets
+    offsets.push(fragment.len() as u32);
+    Ok(offsets)
+}
+
+// Obtain the given RLE segment of the fragment
+fn rle_segment<'a>(fragment: &'a [u8], offsets: &[u32], index: usize) -> DecodeResult<&'a [u8]> {
+    let (Some(start), Some(end)) = (offsets.get(index), offsets.get(index + 1)) else {
+        whatever!("Missing RLE segment {}", index);
+    };
+    fragment
+        .get(*start as usize..*end as usize)
+        .whatever_context("Invalid RLE segment offsets")
 }
 
 /// PackBits Reader from the image-tiff crate
